@@ -75,10 +75,11 @@ func Main() {
 	tA := time.Since(t0)
 	partD(run)
 	tD := time.Since(t0) - tA
-	ctxs := partB(run, root)
-	tB := time.Since(t0) - tA - tD
+	ctxs, plan := partBPrepare(run)
 	partC(run, root, ctxs)
-	tC := time.Since(t0) - tA - tD - tB
+	tC := time.Since(t0) - tA - tD
+	partBRun(run, root, ctxs, plan)
+	tB := time.Since(t0) - tA - tD - tC
 	run.Extra("part_wall_s", map[string]float64{"a_roundtrip": tA.Seconds(), "d_histories": tD.Seconds(), "b_fault_enumeration": tB.Seconds(), "c_crash_points": tC.Seconds()})
 	cleanup()
 	run.Finish(vrun.Level{
@@ -284,7 +285,7 @@ func judgeRoundTrip(run *vrun.Run, m MIndex, tag string, viaFile string) {
 		}
 		run.Cover("a:file-roundtrips")
 	}
-	if run.WantSample() && nfp >= 2 && len(m) <= 4 {
+	if nfp >= 2 && len(m) <= 4 && len(m) >= 2 && run.WantSample() && wantSample("a", 2) {
 		var s []string
 		for _, f := range m {
 			s = append(s, fmt.Sprintf("%s mtime=%d footprints=%d", clip(f.Path), f.ModTime, len(f.Footprints)))
@@ -343,7 +344,7 @@ func partD(run *vrun.Run) {
 
 const maxCacheFile = 4096
 
-func partB(run *vrun.Run, root string) []*faultCtx {
+func partBPrepare(run *vrun.Run) ([]*faultCtx, faultPlan) {
 	K := run.Pick(40, 400)
 	var plan faultPlan
 	var ctxs []*faultCtx
@@ -376,10 +377,14 @@ func partB(run *vrun.Run, root string) []*faultCtx {
 			run.Cover("b:index-kind=scan-of-tree")
 		}
 	}
+	return ctxs, plan
+}
+
+func partBRun(run *vrun.Run, root string, ctxs []*faultCtx, plan faultPlan) {
 	b, _ := json.Marshal(plan)
 	if err := os.WriteFile("plan.json", b, 0o644); err != nil {
 		run.Inconclusive("harness: cannot write plan")
-		return ctxs
+		return
 	}
 	off := plan.offsets()
 	total := off[len(off)-1]
@@ -389,7 +394,11 @@ func partB(run *vrun.Run, root string) []*faultCtx {
 		nP += s.M
 	}
 	run.Extra("fault_enumeration", map[string]int{"indexes": len(ctxs), "cache_file_bytes_total": nF, "payload_bytes_total": nP, "cases": total})
-	run.RunChildren(vrun.ChildCfg{N: total, Chunk: 3000, MemKiB: 4 << 20, ExtraArgs: []string{root}}, func(d vrun.Death) {
+	// the children run under a small address-space limit so that a runaway
+	// allocation dies at once instead of filling the machine; keep glibc from
+	// reserving one 64 MiB arena per thread inside that limit
+	os.Setenv("MALLOC_ARENA_MAX", "1")
+	run.RunChildren(vrun.ChildCfg{N: total, Chunk: 3000, MemKiB: 1536 << 10, ExtraArgs: []string{root}}, func(d vrun.Death) {
 		k := sort.SearchInts(off, d.Case+1) - 1
 		var wit any = map[string]any{"case": d.Case}
 		at := fmt.Sprintf("fault case %d", d.Case)
@@ -402,7 +411,6 @@ func partB(run *vrun.Run, root string) []*faultCtx {
 		}
 		run.Violation("C16/reader/"+d.Kind+"-death", fmt.Sprintf("%s: the process reading the file died (%s): %s", at, d.Kind, vrun.FatalHead(d.Detail)), wit)
 	})
-	return ctxs
 }
 
 // ---------------------------------------------------------------- (c) crash points
